@@ -49,7 +49,7 @@ ASSUMPTIONS = [
     "new-process recovery is executed once per distinct on-disk state (memoised by content hash)",
 ]
 BOUNDS = {
-    "quick": {"history_depth": "7 (5 with byte-code caching)", "faults": "1 fault at every call x every mode", "constructors": "2 threads: preemption bound 4; 3 threads: bound 1"},
+    "quick": {"history_depth": "7 (5 with byte-code caching)", "faults": "1 fault at every call x every mode", "constructors": "2 threads: preemption bound 3; 3 threads: bound 1", "routes": "module_directory (all initial states) and module_filename (no-module, stale-module): the temporary file of a rewrite lives next to the module path", "foreign_magic": "+1 and x10+4"},
     "thorough": {"history_depth": "10 (7 with byte-code caching)", "faults": "1 fault at every call x every mode; 2 faults (die after a failed call)", "constructors": "2 threads: preemption bound 5; 3 threads: bound 2"},
 }
 READY = True
@@ -144,6 +144,9 @@ class Env:
         def mkstemp(*a, **k):
             fd, name = tempfile.mkstemp(*a, **k)
             env.fds.append(fd)
+            # where the temporary file lives decides whether the final move is a rename (one step) or a copy
+            if os.path.realpath(os.path.dirname(name)) != os.path.realpath(os.path.dirname(env.modpath)):
+                env.tmp_outside = os.path.dirname(name)
             return fd, name
 
         def move(src, dst):
@@ -222,7 +225,11 @@ class Env:
             before = os.stat(self.modpath).st_mtime_ns
         except OSError:
             before = None
-        t = self.Template(filename=self.src, module_directory=self.moddir, uri="t.html", **kw)
+        if getattr(self, "via", "module_directory") == "module_filename":
+            # the caller names the module file itself (what TemplateLookup does for modulename_callable)
+            t = self.Template(filename=self.src, module_filename=self.modpath, uri="t.html", **kw)
+        else:
+            t = self.Template(filename=self.src, module_directory=self.moddir, uri="t.html", **kw)
         # whatever way the module file was written, its mtime is the simulated clock (the harness owns time)
         try:
             after = os.stat(self.modpath).st_mtime_ns
@@ -705,7 +712,7 @@ def conc_specs(tier):
     q = tier == "quick"
     out = []
     for init in ("no-module", "stale-module", "corrupt-module", "missing-dir"):
-        out.append((init, 2, 4 if q else 5))
+        out.append((init, 2, 3 if q else 5))
         out.append((init, 3, 1 if q else 2))
     return out
 
@@ -713,7 +720,11 @@ def conc_specs(tier):
 def plan(tier, seed):
     jobs = []
     for init in INITIAL:
-        jobs.append({"kind": "faults", "init": init, "tier": tier, "cross_fs": False})
+        # the fault points of one initial state are spread over 3 jobs (every point runs a later process)
+        for sh in range(3):
+            jobs.append({"kind": "faults", "init": init, "tier": tier, "cross_fs": False, "shard": sh, "nshards": 3})
+            if tier != "quick" or init in ("no-module", "stale-module"):
+                jobs.append({"kind": "faults", "init": init, "tier": tier, "cross_fs": False, "via": "module_filename", "shard": sh, "nshards": 3})
     for init, n, bound in conc_specs(tier):
         ex, viols = run_concurrent(init, n, [])
         firsts = sched.first_level(ex, bound)
@@ -728,6 +739,8 @@ def run_job(job):
     st = Stats()
     if job["kind"] == "faults":
         env = Env()
+        env.via = job.get("via", "module_directory")
+        env.tmp_outside = None
         try:
             init = job["init"]
             try:
@@ -736,13 +749,19 @@ def run_job(job):
                 st.states += 1
                 st.violation("baseline:render-after-write", {"kind": "baseline", "init": init}, "after a (re)write the Template renders the current source", expected=e.args[1], observed=e.args[2])
                 return st
-            st.extra.setdefault("intercepted_calls", {})[init] = log
-            for plan in plans:
+            st.extra.setdefault("intercepted_calls", {})[init + ("" if env.via == "module_directory" else "@" + env.via)] = log
+            st.oracles["tempfile-next-to-the-module"] += 1
+            if env.tmp_outside is not None and job.get("shard", 0) == 0:
+                st.violation("tempfile:created outside the module's directory (%s)" % env.via, {"kind": "baseline-tmp", "init": init, "via": env.via},
+                             "the new module is put in place in one step: its temporary file lives in the directory of the module path", expected=os.path.dirname(env.modpath), observed=env.tmp_outside)
+            for pi_, plan in enumerate(plans):
+                if pi_ % job.get("nshards", 1) != job.get("shard", 0):
+                    continue
                 outcome, where, viols = run_fault(env, init, cur, snap, old, new, plan, st)
                 st.states += 1
                 st.traces += 1
                 for sig, oracle, exp, obs in viols:
-                    st.violation(sig + "@" + log[plan[0]], {"kind": "fault", "init": init, "plan": list(plan)}, oracle, expected=exp, observed=obs)
+                    st.violation(sig + "@" + log[plan[0]], {"kind": "fault", "init": init, "plan": list(plan), "via": env.via}, oracle, expected=exp, observed=obs)
                 if plan[1] == "torn" or len(st.samples) < 2:
                     st.sample({"initial": init, "call": log[plan[0]], "k": plan[0], "mode": plan[1], "bytes": plan[2], "outcome": outcome, "module_path": where})
         finally:
@@ -782,7 +801,7 @@ def run_job(job):
 
 def post(tier, seed, st):
     cfgs = h_configs(tier)
-    bfs.run_bfs("mc.props.c15", cfgs, st, max_depth=99, max_states=100000, deadline_s=40 if tier == "quick" else 600,
+    bfs.run_bfs("mc.props.c15", cfgs, st, max_depth=99, max_states=100000, deadline_s=30 if tier == "quick" else 600,
                 label=lambda c: "history pyc=%s writer=%s" % (c["pyc"], c["writer"]))
 
 
@@ -798,8 +817,21 @@ def replay(case):
         finally:
             env.close()
         return True, "holds"
+    if case.get("kind") == "baseline-tmp":
+        env = Env()
+        env.via = case.get("via", "module_directory")
+        env.tmp_outside = None
+        try:
+            fault_cases(env, case["init"], "quick")
+            if env.tmp_outside is not None:
+                return False, "reproduced: temporary file in %s" % env.tmp_outside
+        finally:
+            env.close()
+        return True, "holds"
     if case.get("kind") == "fault":
         env = Env()
+        env.via = case.get("via", "module_directory")
+        env.tmp_outside = None
         try:
             cur, snap, log, old, new, plans = fault_cases(env, case["init"], "quick")
             outcome, where, viols = run_fault(env, case["init"], cur, snap, old, new, tuple(case["plan"]), st)
